@@ -58,8 +58,10 @@ def frame_cases(draw):
           'bv': draw(st.sampled_from(['element', 'array', 'frame', 'frame', 'series'])),
           'vdts': draw(st.lists(st.sampled_from(['int64', 'float64', 'bool', '<U2', 'object']), min_size=1, max_size=4)),
           'series_axis': draw(st.booleans())}
+    # rows labelled by a (named) hierarchy where only the columns are addressed: column drops through getitem, astype, rename
+    hier_rows = iface in ('drop', 'astype', 'rename') and route == 'getitem' and draw(st.booleans())
     rec = draw(gen.frame_recipe(min_rows=1, max_rows=5, min_cols=1, max_cols=6, kinds=KINDS,
-                                index_kinds=('auto', 'int', 'str', 'date'), column_kinds=('auto', 'int', 'str')))
+                                index_kinds=('ih',) if hier_rows else ('auto', 'int', 'str', 'date'), column_kinds=('auto', 'int', 'str')))
     n, m = len(rec['index']['labels']), len(rec['columns']['labels'])
     case = {'rec': rec, 'iface': iface, 'route': route, 'go': go}
     if iface == 'assign':
